@@ -135,8 +135,7 @@ def run(check, repo, tier):
     check.rule("R1", "on every abstract path of every public command that ends in a validation/interlock exception: nothing was delivered and the final store of the tracked objects equals the initial store")
     cr = CommandRun(repo, tier=tier, cm_body=("pass",))
     results = cr.run(analyse)
-    if cr.stats["commands"] < 40:
-        raise AnalysisError(f"C05: only {cr.stats['commands']} public commands analysed (floor 40)")
+    check.floor(not (cr.stats["commands"] < 40), f"C05: only {cr.stats['commands']} public commands analysed (floor 40)")
     rejected = 0
     for r in results:
         n_rej = 0
@@ -150,8 +149,7 @@ def run(check, repo, tier):
         rejected += n_rej
         if len(check.samples) < 10 and n_rej:
             check.sample({"command": r["command"], "context": r["ctx"], "abstract_paths": r["paths"], "rejecting_paths": n_rej})
-    if rejected < 100:
-        raise AnalysisError(f"C05: only {rejected} rejecting paths found (floor 100): the analysis no longer sees the validation raises")
+    check.floor(not (rejected < 100), f"C05: only {rejected} rejecting paths found (floor 100): the analysis no longer sees the validation raises")
     check.analysed = dict(cr.stats, rejecting_paths=rejected)
     check.coverage["exhaustive"] = tier == "thorough"
     check.explanation = (
